@@ -34,8 +34,12 @@ func ZZ_C12_ersIsolation() {
 	}
 	// the pod template may itself name a namespace (the CRD exposes the whole ObjectMeta): pods are
 	// still created in the namespace of the ExtendedDaemonSet
+	// ... and may carry the reserved link labels with the names of another ExtendedDaemonSet and replica
+	// set (copied from a pod manifest): the created pods are still linked to X and its replica set
 	if nondet.Bool("x.templateNamesAnotherNamespace") {
 		rsNew.Spec.Template.Namespace = "ns2"
+		rsNew.Spec.Template.Labels[datadoghqv1alpha1.ExtendedDaemonSetNameLabelKey] = "bar"
+		rsNew.Spec.Template.Labels[datadoghqv1alpha1.ExtendedDaemonSetReplicaSetNameLabelKey] = "bar-z"
 	}
 	// DaemonSets: "legacy" in ns (the declared one), "legacy" in ns2, "other" in ns — same selector
 	sel := &metav1.LabelSelector{MatchLabels: map[string]string{"app": "agent"}}
@@ -123,7 +127,8 @@ func ZZ_C12_ersIsolation() {
 		}
 		if e.Verb == "create" {
 			p := e.Obj.(*corev1.Pod)
-			nondet.Assert("C12.ers.creates-own-pod", p.Namespace == zzNS && p.Labels[datadoghqv1alpha1.ExtendedDaemonSetNameLabelKey] == zzEDSName)
+			nondet.Assert("C12.ers.creates-own-pod", p.Namespace == zzNS && p.Labels[datadoghqv1alpha1.ExtendedDaemonSetNameLabelKey] == zzEDSName &&
+				p.Labels[datadoghqv1alpha1.ExtendedDaemonSetReplicaSetNameLabelKey] == rsNew.Name)
 			continue
 		}
 		touchedMine := false
